@@ -28,13 +28,14 @@ inductive VR (α : Type) where
   | err
   | panic
   | outside
-deriving Repr
+deriving DecidableEq, Repr
 
 /-- `fixed.Dk` and the `divideByZeroReturnsZero` argument of `NewFixedEvaluator` -/
 structure Cfg where
   places : Nat
   mult : Int
   zero : Bool
+deriving DecidableEq, Repr
 
 /-- the configuration `Dk` from the regenerated table -/
 def cfg? (k : Nat) (zero : Bool) : Option Cfg :=
